@@ -40,7 +40,7 @@ def main():
         print("refusing: /repo has uncommitted changes")
         return 2
     for name, pid, patch in entries():
-        if want and name not in want:
+        if want and name not in want and pid not in want:
             continue
         t0 = time.time()
         a = sh("cd %s && patch -p1 --no-backup-if-mismatch < %s" % (REPO, patch))
